@@ -692,23 +692,31 @@ def c07_prediction(case, rng, kp0):
     coef2 = rng.normal(size=coef.shape) * (0.3 / max(1.0, np.sqrt(nso + nuo)))
     fresh = build_real_top(case['chain'], regressor=pykoop.DataRegressor(coef=coef2))
     fresh.fit(case.get('Xfit', X), n_inputs=nu, episode_feature=ep)
+    # reference first: with a freshly built pipeline around the new matrix.  If THAT prediction diverges (a random matrix
+    # behind a nonlinear lifting may), the new matrix is outside what can be compared and the history is skipped
     try:
-        if int(case.get('cid', 0)) % 2 == 0:
-            kp.regressor_.coef_ = coef2
-        else:
-            kp.regressor_.set_params(coef=coef2)
-            kp.regressor_.fit(kp.transform(case.get('Xfit', X)), n_inputs=kp.n_inputs_out_, episode_feature=ep)
-        for relift in (True, False):
-            a = kp.predict_trajectory(X, relift_state=relift)
-            b = fresh.predict_trajectory(X, relift_state=relift)
-            if not close(a, b, 1e-9) and np.all(np.isfinite(b)):
-                return False, dict(what='after the regressor of a fitted pipeline received a new Koopman matrix, predict_trajectory '
-                                        'still iterates the old one (trajectory is not the iterated one-step prediction)',
-                                   relift_state=relift)
-        if not close(kp.predict(X), fresh.predict(X), 1e-9):
-            return False, dict(what='predict does not use the current Koopman matrix of the regressor')
-    except Exception as e:  # noqa
-        return False, dict(what=f'prediction after replacing the Koopman matrix raised {type(e).__name__}: {e}')
+        ref = {relift: fresh.predict_trajectory(X, relift_state=relift) for relift in (True, False)}
+        ref_one = fresh.predict(X)
+        usable = all(np.all(np.isfinite(v)) and float(np.max(np.abs(v))) < 1e8 for v in list(ref.values()) + [ref_one])
+    except Exception:  # noqa
+        usable = False
+    if usable:
+        try:
+            if int(case.get('cid', 0)) % 2 == 0:
+                kp.regressor_.coef_ = coef2
+            else:
+                kp.regressor_.set_params(coef=coef2)
+                kp.regressor_.fit(kp.transform(case.get('Xfit', X)), n_inputs=kp.n_inputs_out_, episode_feature=ep)
+            for relift in (True, False):
+                a = kp.predict_trajectory(X, relift_state=relift)
+                if not close(a, ref[relift], 1e-9):
+                    return False, dict(what='after the regressor of a fitted pipeline received a new Koopman matrix, predict_trajectory '
+                                            'still iterates the old one (trajectory is not the iterated one-step prediction)',
+                                       relift_state=relift)
+            if not close(kp.predict(X), ref_one, 1e-9):
+                return False, dict(what='predict does not use the current Koopman matrix of the regressor')
+        except Exception as e:  # noqa
+            return False, dict(what=f'prediction after replacing the Koopman matrix raised {type(e).__name__}: {e}')
     # the prediction is a function of the VALUES of the data: integer-typed arrays holding the same
     # numbers as float arrays must give the same trajectories (both call forms)
     Xi = np.round(2 * X)
